@@ -220,23 +220,26 @@ def gen_groups(rng, count, tag, kinds=("fgroup", "fgroup_keyed", "sgroup", "sgro
         ops = []
         nm = 0
         extborn = set()
+        drain = rng.random() < 0.15       # members wake themselves, the history ends with polls until the group is empty (and a few more)
+        fs = (lambda rng, n, i, tryj, panic: fscript(rng, n, i, tryj, drain=True)) if drain else fscript
+        ss = (lambda rng, n, i, panic: sscript(rng, n, i, drain=True)) if drain else sscript
         if cap == 0 and rng.random() < 0.12:
             # FromIterator: the group is collected from an iterator of members (keys unknown, like extend)
             k = rng.randint(1, 3)
-            mk = (lambda j: fscript(rng, k, j, False, panic)) if comb.startswith("f") else (lambda j: sscript(rng, k, j, panic))
+            mk = (lambda j: fs(rng, k, j, False, panic)) if comb.startswith("f") else (lambda j: ss(rng, k, j, panic))
             ops.append("iter(" + ";".join(mk(j) for j in range(k)) + ")")
             extborn.update(range(k))
             nm = k
         for _ in range(rng.randint(2, maxops)):
             r = rng.random()
             if r < 0.28:
-                sc = fscript(rng, max(nm, 1), nm, False, panic) if comb.startswith("f") else sscript(rng, max(nm, 1), nm, panic)
+                sc = fs(rng, max(nm, 1), nm, False, panic) if comb.startswith("f") else ss(rng, max(nm, 1), nm, panic)
                 ops.append(f"ins({sc})")
                 nm += 1
             elif r < 0.31 and comb == "fgroup":
                 # Extend::extend (FutureGroup only); the keys of these members stay unknown, so rm/has never name them
                 k = rng.randint(1, 3)
-                ops.append("ext(" + ";".join(fscript(rng, max(nm, 1), nm + j, False, panic) for j in range(k)) + ")")
+                ops.append("ext(" + ";".join(fs(rng, max(nm, 1), nm + j, False, panic) for j in range(k)) + ")")
                 for j in range(k):
                     extborn.add(nm + j)
                 nm += k
@@ -264,6 +267,10 @@ def gen_groups(rng, count, tag, kinds=("fgroup", "fgroup_keyed", "sgroup", "sgro
                 ops.append("emp")
             else:
                 ops.append("d")
+        if drain:
+            ops = [o for o in ops if o != "d"]
+            steps = sum(o.count(",") + o.count(";") + 1 for o in ops if o[:4] in ("ins(", "ext(", "iter"))
+            ops += ["p"] * (min(steps, 40) + 3)
         out.append(f"{tag}{c} {comb} group n={cap}  | {' '.join(ops)}")
     return out
 
